@@ -20,6 +20,8 @@
 //	close [w=ms]                             peer closes; => run=returned|hung
 //
 // Every sending op is followed by a barrier ping with nonce 0xB0B00000+opIndex; the observation is
+// `none` = no pong although the node has consumed everything sent and is blocked reading (or the
+// op's time bound w= expired). Observation:
 // `sync=ok|none|closed|crash [run=returned|hung] tx=[what the node sent, sorted] fx=[spy calls in
 // order] hh=[[headers the alternate handler processed]...] rx=<AddTx count> st=r<ready>v<verified>h<handshake>`.
 package main
@@ -39,6 +41,7 @@ import (
 	"strconv"
 	"strings"
 	"sync"
+	"sync/atomic"
 	"syscall"
 	"time"
 
@@ -56,6 +59,7 @@ const (
 	workerLimit  = uint64(3500) << 20 // RLIMIT_AS of the worker
 	defaultWait  = 2000 * time.Millisecond
 	settleWait   = 1000 * time.Millisecond
+	quiesceGrace = 60 * time.Millisecond
 	runReturnMax = 2000 * time.Millisecond
 )
 
@@ -95,7 +99,7 @@ type hdrSpy struct {
 }
 
 func (h *hdrSpy) GetNewHeadersAvailableChannel() <-chan *wire.BlockHeader { return h.ch }
-func (h *hdrSpy) Height() int                                              { return 700000 }
+func (h *hdrSpy) Height() int                                             { return 700000 }
 func (h *hdrSpy) Hash(ctx context.Context, height int) (*bitcoin.Hash32, error) {
 	return &bitcoin.Hash32{}, nil
 }
@@ -182,6 +186,34 @@ func altHandler(log *spyLog) bitcoin_reader.MessageHandlerFunction {
 	}
 }
 
+// countingConn wraps the node's side of the connection: how many bytes the node has taken and
+// whether it is blocked in Read right now. "Everything we sent was consumed and the node is
+// waiting for more" is how the harness recognises, without a time-out, that no pong will come.
+type countingConn struct {
+	net.Conn
+	mu      sync.Mutex
+	read    int64
+	pending int
+}
+
+func (c *countingConn) Read(b []byte) (int, error) {
+	c.mu.Lock()
+	c.pending++
+	c.mu.Unlock()
+	n, err := c.Conn.Read(b)
+	c.mu.Lock()
+	c.pending--
+	c.read += int64(n)
+	c.mu.Unlock()
+	return n, err
+}
+
+func (c *countingConn) state() (int64, bool) {
+	c.mu.Lock()
+	defer c.mu.Unlock()
+	return c.read, c.pending > 0
+}
+
 // ---- scripted peer ----
 
 type rmsg struct {
@@ -193,6 +225,9 @@ type session struct {
 	node      *bitcoin_reader.BitcoinNode
 	log       *spyLog
 	conn      net.Conn
+	cc        *countingConn
+	queued    int64 // bytes handed to the writer
+	written   int64 // bytes the writer has written (atomic)
 	interrupt chan interface{}
 	done      chan struct{}
 
@@ -257,6 +292,7 @@ func (s *session) writer() {
 				}
 				return
 			}
+			atomic.AddInt64(&s.written, int64(n))
 			b = b[n:]
 		}
 	}
@@ -283,6 +319,50 @@ func (s *session) waitFor(d time.Duration, cond func() bool) string {
 		}
 		if left > 20*time.Millisecond {
 			left = 20 * time.Millisecond
+		}
+		select {
+		case <-s.wake:
+		case <-time.After(left):
+		}
+	}
+}
+
+// waitBarrier waits for the pong of the barrier ping. It gives up early ("none") when the node has
+// consumed every byte sent, is blocked reading for more, and nothing has arrived for a grace period
+// (its writer goroutine has had time to flush what the handlers queued).
+func (s *session) waitBarrier(d time.Duration, nonce uint64) string {
+	deadline := time.Now().Add(d)
+	quietSince := time.Time{}
+	lastRecv := -1
+	for {
+		s.mu.Lock()
+		ok := s.hasPong(nonce)
+		closed := s.closed
+		nrecv := len(s.recv)
+		s.mu.Unlock()
+		if ok {
+			return "ok"
+		}
+		if closed {
+			return "closed"
+		}
+		read, waiting := s.cc.state()
+		if waiting && read == s.queued && atomic.LoadInt64(&s.written) == s.queued && nrecv == lastRecv {
+			if quietSince.IsZero() {
+				quietSince = time.Now()
+			} else if time.Since(quietSince) >= quiesceGrace {
+				return "none"
+			}
+		} else {
+			quietSince = time.Time{}
+		}
+		lastRecv = nrecv
+		left := time.Until(deadline)
+		if left <= 0 {
+			return "none"
+		}
+		if left > 5*time.Millisecond {
+			left = 5 * time.Millisecond
 		}
 		select {
 		case <-s.wake:
@@ -369,8 +449,9 @@ func newSession(a hx.Args) (*session, string) {
 		s.node.SetHeaderHandler(altHandler(s.log))
 	}
 	ctx := hx.Ctx()
+	s.cc = &countingConn{Conn: ac.c}
 	go func() {
-		s.node.RunWithConn(ctx, ac.c, s.interrupt)
+		s.node.RunWithConn(ctx, s.cc, s.interrupt)
 		close(s.done)
 	}()
 	go s.reader()
@@ -464,8 +545,9 @@ func (s *session) sendOp(a hx.Args, b []byte, own uint64, hasOwn bool) string {
 		nonce = own
 	}
 	out := append(append([]byte{}, b...), frame("ping", le64(nonce), nil)...)
+	s.queued += int64(len(out))
 	s.writeQ <- out
-	res := s.waitFor(waitOf(a, defaultWait), func() bool { return s.hasPong(nonce) })
+	res := s.waitBarrier(waitOf(a, defaultWait), nonce)
 	if res == "ok" {
 		// the handshake goroutine answers asynchronously: wait for what it must still send
 		if s.sentVer {
